@@ -152,6 +152,12 @@ let handle (args : string list) : string =
       lexed_str l ^ " " ^ after_lex l
     with Bad m -> "ERR:" ^ m)
   | ["grammar"] ->
-    string_of_int (List.length productions)
+    (* start ; lhs:sym,sym ; ...   with sym = T<value returned by Lex> | N<goyacc's nonterminal number> *)
+    let sym = function
+      | T t -> "T" ^ string_of_z (tok_code t)
+      | NT n -> "N" ^ string_of_z (nt_number n) in
+    "N" ^ string_of_z (nt_number start_symbol) ^ ";" ^
+    String.concat ";" (List.map (fun (lhs, rhs) ->
+      "N" ^ string_of_z (nt_number lhs) ^ ":" ^ String.concat "," (List.map sym rhs)) productions)
   | _ -> "ERR:bad request"
 let () = serve handle
